@@ -697,11 +697,57 @@ func rootBigRecv(v ssa.Value) ssa.Value {
 			v = x.X
 		case *ssa.Convert:
 			v = x.X
+		case *ssa.Call:
+			// a conversion helper (`func (a *MonetaryInt) bigInt() *big.Int { return (*big.Int)(a) }`)
+			g := staticCallee(x)
+			k := -1
+			if g != nil {
+				k = passThroughParam(g)
+			}
+			if k < 0 || k >= len(x.Call.Args) {
+				return v
+			}
+			v = x.Call.Args[k]
 		default:
 			return v
 		}
 	}
 	return v
+}
+
+// passThroughParam: the index of the parameter every return of fn is a mere conversion of, or -1.
+func passThroughParam(fn *ssa.Function) int {
+	if len(fn.Blocks) == 0 || !inRepo(fnPkgPath(origin(fn))) {
+		return -1
+	}
+	idx := -1
+	for _, b := range fn.Blocks {
+		ret, ok := b.Instrs[len(b.Instrs)-1].(*ssa.Return)
+		if !ok {
+			continue
+		}
+		if len(ret.Results) != 1 {
+			return -1
+		}
+		v := ret.Results[0]
+		for i := 0; i < 4; i++ {
+			if ct, ok := v.(*ssa.ChangeType); ok {
+				v = ct.X
+			} else if cv, ok := v.(*ssa.Convert); ok {
+				v = cv.X
+			}
+		}
+		p, ok := v.(*ssa.Parameter)
+		if !ok {
+			return -1
+		}
+		k := paramIndex(p)
+		if idx >= 0 && idx != k {
+			return -1
+		}
+		idx = k
+	}
+	return idx
 }
 
 func freshBig(v ssa.Value, depth int) (bool, string) {
@@ -729,6 +775,14 @@ func freshBig(v ssa.Value, depth int) (bool, string) {
 			m := n[strings.LastIndex(n, ".")+1:]
 			if bigMutators[m] {
 				return freshBig(x.Call.Args[0], depth+1)
+			}
+		}
+		if g := staticCallee(x); g != nil {
+			if k := passThroughParam(g); k >= 0 && k < len(x.Call.Args) {
+				return freshBig(x.Call.Args[k], depth+1)
+			}
+			if ok, why := freshResult(g, 0, depth+1); ok {
+				return true, why
 			}
 		}
 		return false, "result of " + n
@@ -761,10 +815,37 @@ func freshBig(v ssa.Value, depth int) (bool, string) {
 			if strings.HasPrefix(n, "(*math/big.") && len(call.Call.Args) > 0 && bigMutators[n[strings.LastIndex(n, ".")+1:]] {
 				return freshBig(call.Call.Args[0], depth+1)
 			}
+			if g := staticCallee(call); g != nil {
+				if ok, why := freshResult(g, x.Index, depth+1); ok {
+					return true, why
+				}
+			}
 		}
 		return false, "call result"
 	}
 	return false, fmt.Sprintf("%T", v)
+}
+
+// freshResult: every return of the repository function g yields, at result index idx, a freshly allocated value (or nil).
+func freshResult(g *ssa.Function, idx int, depth int) (bool, string) {
+	if len(g.Blocks) == 0 || !inRepo(fnPkgPath(origin(g))) || depth > 8 {
+		return false, "result of " + g.Name()
+	}
+	n := 0
+	for _, b := range g.Blocks {
+		ret, ok := b.Instrs[len(b.Instrs)-1].(*ssa.Return)
+		if !ok || idx >= len(ret.Results) {
+			continue
+		}
+		if isNilConst(ret.Results[idx]) {
+			continue
+		}
+		n++
+		if ok, why := freshBig(ret.Results[idx], depth+1); !ok {
+			return false, "result of " + g.Name() + ": " + why
+		}
+	}
+	return n > 0, "every return of " + g.Name() + " is freshly allocated"
 }
 
 // ---- R01d / R01e ---------------------------------------------------------------------------------
@@ -1070,110 +1151,127 @@ func ruleR08b(c *Ctx) {
 		return
 	}
 	script := fn.Params[1]
-	var getCall, setCall *ssa.Call
-	var compileCall *ssa.Call
-	wholeScript := false
-	allCalls(fn, func(ci ssa.CallInstruction) {
-		call, ok := ci.(*ssa.Call)
+	// Compile and the helpers of its package it is made of (cacheKey / lookup / compileAndStore …), as one body
+	flat := flattenCalls(fn, pkgCommand, 3)
+	type site struct {
+		call *ssa.Call
+		env  *frameEnv
+	}
+	var get, set, comp *site
+	for _, fi := range flat {
+		call, ok := fi.ins.(*ssa.Call)
 		if !ok {
-			return
+			continue
 		}
 		if call.Call.IsInvoke() {
-			switch call.Call.Method.Name() {
-			case "Get":
-				getCall = call
-			case "Set":
-				setCall = call
-			case "Write":
-				if cv, ok := call.Call.Args[0].(*ssa.Convert); ok && cv.X == ssa.Value(script) {
-					wholeScript = true
-				}
+			switch {
+			case call.Call.Method.Name() == "Get" && len(call.Call.Args) == 1:
+				get = &site{call, fi.env}
+			case call.Call.Method.Name() == "Set" && len(call.Call.Args) == 2:
+				set = &site{call, fi.env}
 			}
 		}
 		if f := staticCallee(call); f != nil && fnPkgPath(f) == pkgCompiler && f.Name() == "Compile" {
-			compileCall = call
+			comp = &site{call, fi.env}
 		}
-	})
-	if getCall == nil || setCall == nil || compileCall == nil {
+	}
+	if get == nil || set == nil || comp == nil {
 		c.undecided(rule, "Compile:cache-calls", fn.Pos(), "cache Get/Set or compiler.Compile call not found")
 		return
 	}
-	sameKey := strip(getCall.Call.Args[0]) == strip(setCall.Call.Args[0])
-	fromSum := func(v ssa.Value) bool {
-		for _, r := range roots(strip(v), func(call *ssa.Call) []ssa.Value {
-			if strings.HasSuffix(calleeFullName(call), ".EncodeToString") {
-				return call.Call.Args[1:]
-			}
-			return nil
-		}) {
-			if call, ok := r.(*ssa.Call); ok && call.Call.IsInvoke() && call.Call.Method.Name() == "Sum" {
-				return true
+	// the script itself, not a part of it: the parameter, possibly handed down through helper parameters
+	var isWhole func(v ssa.Value, env *frameEnv, depth int) bool
+	isWhole = func(v ssa.Value, env *frameEnv, depth int) bool {
+		if depth > 6 {
+			return false
+		}
+		if ct, ok := v.(*ssa.ChangeType); ok {
+			return isWhole(ct.X, env, depth+1)
+		}
+		if v == ssa.Value(script) || stripLoadOfParamCell(v) == ssa.Value(script) {
+			return true
+		}
+		if p, ok := v.(*ssa.Parameter); ok && env != nil && env.args != nil {
+			if a, ok := env.args[p]; ok {
+				return isWhole(a, env.parent, depth+1)
 			}
 		}
 		return false
 	}
-	// key derives from digest.Sum
-	fromDigest := fromSum(getCall.Call.Args[0])
-	if !wholeScript || !fromDigest {
-		// the key may be computed by a helper of the package given the script (`key, err := cacheKey(script)`)
-		for _, r := range roots(strip(getCall.Call.Args[0]), nil) {
-			hc, idx := resultOf(r)
-			if hc == nil {
-				continue
-			}
-			h := staticCallee(hc)
-			if h == nil || fnPkgPath(h) != pkgCommand || len(h.Blocks) == 0 {
-				continue
-			}
-			// the helper is given the script …
-			pi := -1
-			for i, a := range hc.Call.Args {
-				if a == ssa.Value(script) {
-					pi = i
-				}
-			}
-			if pi < 0 || pi >= len(h.Params) {
-				continue
-			}
-			hp := h.Params[pi]
-			// … feeds all of it to the digest …
-			hw := false
-			allCalls(h, func(ci ssa.CallInstruction) {
-				if call, ok := ci.(*ssa.Call); ok && call.Call.IsInvoke() && call.Call.Method.Name() == "Write" {
-					if cv, ok := call.Call.Args[0].(*ssa.Convert); ok && stripLoadOfParamCell(cv.X) == ssa.Value(hp) {
-						hw = true
+	// the key is (an encoding of) a digest that was fed the whole script
+	var digests func(v ssa.Value, env *frameEnv, depth int) (whole, fromDigest bool)
+	digests = func(v ssa.Value, env *frameEnv, depth int) (bool, bool) {
+		if depth > 8 {
+			return false, false
+		}
+		whole, fromDigest := false, false
+		for _, r := range rootsEnv(v, env, pkgCommand) {
+			switch x := r.v.(type) {
+			case *ssa.Call:
+				name := calleeFullName(x)
+				switch {
+				case strings.HasSuffix(name, ".EncodeToString") || strings.HasSuffix(name, ".Sprintf") || strings.HasSuffix(name, "hex.EncodeToString"):
+					for _, a := range x.Call.Args[1:] {
+						for _, e := range append(variadicElems(a), a) {
+							w, d := digests(e, r.env, depth+1)
+							whole, fromDigest = whole || w, fromDigest || d
+						}
+					}
+				case x.Call.IsInvoke() && x.Call.Method.Name() == "Sum":
+					fromDigest = true
+					// the hash was written the script
+					h := x.Call.Value
+					for _, b := range x.Parent().Blocks {
+						for _, ins := range b.Instrs {
+							if w, ok := ins.(*ssa.Call); ok && w.Call.IsInvoke() && w.Call.Method.Name() == "Write" && w.Call.Value == h {
+								if cv, ok := w.Call.Args[0].(*ssa.Convert); ok && isWhole(cv.X, r.env, 0) {
+									whole = true
+								}
+							}
+						}
+					}
+				case strings.HasPrefix(name, "crypto/") && strings.Contains(name, ".Sum") && len(x.Call.Args) == 1:
+					fromDigest = true
+					if cv, ok := x.Call.Args[0].(*ssa.Convert); ok && isWhole(cv.X, r.env, 0) {
+						whole = true
 					}
 				}
-			})
-			// … and returns a key derived from its Sum on every successful return
-			hs, nRet := true, 0
-			for _, b := range h.Blocks {
-				if ret, ok := b.Instrs[len(b.Instrs)-1].(*ssa.Return); ok && idx < len(ret.Results) {
-					if ei := errResultIdx(h.Signature); ei >= 0 && !isNilConst(ret.Results[ei]) {
-						continue
-					}
-					nRet++
-					if !fromSum(ret.Results[idx]) {
-						hs = false
+			case *ssa.Alloc:
+				// digest := sha256.Sum256(…); digest[:]
+				for _, ref := range *x.Referrers() {
+					if st, ok := ref.(*ssa.Store); ok && st.Addr == ssa.Value(x) {
+						w, d := digests(st.Val, r.env, depth+1)
+						whole, fromDigest = whole || w, fromDigest || d
 					}
 				}
 			}
-			if hw && hs && nRet > 0 {
-				wholeScript, fromDigest = true, true
-			}
+		}
+		return whole, fromDigest
+	}
+	wholeScript, fromDigest := digests(get.call.Call.Args[0], get.env, 0)
+	keyRoots := func(s *site) map[ssa.Value]bool {
+		out := map[ssa.Value]bool{}
+		for _, r := range rootsEnv(s.call.Call.Args[0], s.env, pkgCommand) {
+			out[r.v] = true
+		}
+		return out
+	}
+	gk, sk := keyRoots(get), keyRoots(set)
+	sameKey := len(gk) == len(sk) && len(gk) > 0
+	for v := range gk {
+		if !sk[v] {
+			sameKey = false
 		}
 	}
 	c.check(wholeScript, rule, "Compile:key-digests-the-whole-script", fn.Pos(), "the digest is fed with []byte(script)", "the cache key is not a digest of the whole script text: different scripts can share a cached program")
-	c.check(sameKey && fromDigest, rule, "Compile:lookup-and-store-use-the-digest-key", getCall.Pos(), "Get and Set use the same key, derived from digest.Sum", "the cache is read and written under different keys, or the key does not derive from the digest")
+	c.check(sameKey && fromDigest, rule, "Compile:lookup-and-store-use-the-digest-key", get.call.Pos(), "Get and Set use the same key, derived from a digest", "the cache is read and written under different keys, or the key does not derive from the digest")
 	compiledArg := false
-	for _, a := range setCall.Call.Args[1:] {
-		for _, r := range roots(a, nil) {
-			if ex, ok := r.(*ssa.Extract); ok && ex.Tuple == ssa.Value(compileCall) && ex.Index == 0 {
-				compiledArg = true
-			}
+	for _, r := range rootsEnv(set.call.Call.Args[1], set.env, pkgCommand) {
+		if ex, ok := r.v.(*ssa.Extract); ok && ex.Tuple == ssa.Value(comp.call) && ex.Index == 0 {
+			compiledArg = true
 		}
 	}
-	c.check(compiledArg && compileCall.Call.Args[0] == ssa.Value(script), rule, "Compile:stores-the-program-of-this-script", setCall.Pos(), "the stored value is compiler.Compile(script)", "the value cached under the key is not the program compiled from this script")
+	c.check(compiledArg && isWhole(comp.call.Call.Args[0], comp.env, 0), rule, "Compile:stores-the-program-of-this-script", set.call.Pos(), "the stored value is compiler.Compile(script)", "the value cached under the key is not the program compiled from this script")
 }
 
 // ---- R08c ------------------------------------------------------------------------------------
@@ -1371,7 +1469,14 @@ func ruleR08d(c *Ctx, rule string) {
 			c.bad(rule, key, firstDiscard, fmt.Sprintf("%s discards the static type of %d visited expression(s) without comparing it: an ill-typed program is compiled and the VM's typed pop fails at run time (panic) instead of a compile error", fnName(fn), discarded))
 		}
 	}
-	if nSites < 15 {
+	// visits made through a typed-visit helper (`visitExprOfType(node, push, T, …)`) are checked by the helper
+	nTyped := 0
+	for g, tv := range c.typedVisitHelpers() {
+		if tv.ok {
+			nTyped += len(c.CallersOf(g))
+		}
+	}
+	if nSites+nTyped < 15 {
 		c.undecided(rule, "floor:visit-call-sites", token.NoPos, fmt.Sprintf("only %d Visit{Expr,Variable,Lit} call sites found", nSites))
 	} else {
 		c.ok(rule, "all-other-visit-sites-check-the-type", token.NoPos, fmt.Sprintf("%d call sites inspected", nSites))
